@@ -16,7 +16,7 @@ func TestC14(t *testing.T) {
 	}
 	var cells []Cell
 	var exps []exp
-	full := []string{"new", "start", "client", "dispense", "set:5", "get", "callback", "ping", "big:5000000", "print:x", "kill"}
+	full := []string{"new", "start", "client", "dispense", "set:5", "get", "callback", "revcallback", "ping", "big:5000000", "print:x", "kill"}
 	add := func(c Cell, e exp) { cells = append(cells, c); exps = append(exps, e) }
 	allowedSets := [][]string{nil, {"netrpc"}, {"grpc"}, {"netrpc", "grpc"}}
 	launches := []string{"cmd", "runner"}
@@ -123,6 +123,11 @@ func TestC14(t *testing.T) {
 				}
 				if strings.HasPrefix(o.Op, "big") && o.Val != "5000000" {
 					bad("S", "large response truncated: %s bytes", o.Val)
+				}
+				// never a silently downgraded connection: a brokered gRPC connection carries the transport security
+				// of the session it belongs to (observed by the host: as server for callback, as client for revcallback)
+				if (o.Op == "callback" || o.Op == "revcallback") && c.Plugin.LegacyProto == "grpc" && c.Host.TLS != "none" && o.Val != "tls" {
+					bad("S", "the brokered connection of %s has transport security %q although the session uses TLS (%s)", o.Op, o.Val, c.Host.TLS)
 				}
 			}
 			if r.Protocol != c.Plugin.LegacyProto {
